@@ -108,80 +108,84 @@ func cmdEnums(o opts) {
 		return
 	}
 
+	for _, t := range enumTypes {
+		rec.Put(enumRecord(t, byType[t.Name], r, thorough))
+	}
+	rec.Close()
+}
+
+// enumRecord probes one enum type (its defined constants cs) and returns the ENUM record.
+func enumRecord(t enumType, cs []enumConst, r *rand.Rand, thorough bool) M {
 	nUnions, nUnnamed := 50, 50
 	if thorough {
 		nUnions, nUnnamed = 400, 400
 	}
-	for _, t := range enumTypes {
-		cs := byType[t.Name]
-		var consts []M
-		for _, c := range cs {
-			consts = append(consts, M{"name": B(c.Name), "value": le(c.Value, 8)})
-		}
-		if consts == nil {
-			consts = []M{}
-		}
-		var probes []M
-		// every defined constant
-		for i, c := range cs {
-			probes = append(probes, probeEnum(t, c.Value, []int{i + 1}))
-		}
-		if t.Bitmask {
-			probes = append(probes, probeEnum(t, 0, []int{}))
-			// seeded unions of defined flags
-			for k := 0; k < nUnions && len(cs) > 0; k++ {
-				var of []int
-				var v uint64
-				for i, c := range cs {
-					if r.Intn(2) == 0 || (k < 3 && i < 2) {
-						of = append(of, i+1)
-						v |= c.Value
-					}
-				}
-				if k == 0 { // all flags
-					of = of[:0]
-					v = 0
-					for i, c := range cs {
-						of = append(of, i+1)
-						v |= c.Value
-					}
-				}
-				probes = append(probes, probeEnum(t, v, of))
-			}
-		} else {
-			// unnamed values over the full uint64 range, boundaries
-			vals := []uint64{0, 1, 1<<31 - 1, 1 << 31, 1<<32 - 1, 1 << 32, 1<<63 - 1, 1 << 63, 1<<64 - 1}
-			for k := 0; k < nUnnamed; k++ {
-				switch k % 3 {
-				case 0:
-					vals = append(vals, r.Uint64())
-				case 1:
-					vals = append(vals, uint64(r.Intn(70000)))
-				default:
-					vals = append(vals, r.Uint64()>>uint(r.Intn(64)))
-				}
-			}
-			for _, v := range vals {
-				probes = append(probes, probeEnum(t, v, nil))
-			}
-		}
-		// junk texts: none is a name, a list of names or a numeral
-		first := "X"
-		if len(cs) > 0 {
-			first = cs[0].Name
-		}
-		junks := []string{"", " ", "NOT_A_LABEL_zq", first + "_", "_" + first, first + " |", "| " + first, first + " | ",
-			first + "|" + first, "12abc", "0x10", "1.5", "1e3", first + " | NOT_A_LABEL_zq", "--1", "\x00", first + "\n",
-			" " + first, "٣", "1 2"}
-		for k := 0; k < 3; k++ {
-			junks = append(junks, string(rbytes(r, 1+r.Intn(12))))
-		}
-		var junk []M
-		for _, j := range junks {
-			_, uerr, pan := safeUnmarshal(t, []byte(j))
-			junk = append(junk, M{"text": B(j), "uerr": uerr, "panic": pan})
-		}
-		rec.Put(M{"e": "ENUM", "type": t.Name, "bitmask": t.Bitmask, "consts": consts, "probes": probes, "junk": junk})
+	var consts []M
+	for _, c := range cs {
+		consts = append(consts, M{"name": B(c.Name), "value": le(c.Value, 8)})
 	}
-	rec.Close()
+	if consts == nil {
+		consts = []M{}
+	}
+	var probes []M
+	// every defined constant
+	for i, c := range cs {
+		probes = append(probes, probeEnum(t, c.Value, []int{i + 1}))
+	}
+	if t.Bitmask {
+		probes = append(probes, probeEnum(t, 0, []int{}))
+		// seeded unions of defined flags
+		for k := 0; k < nUnions && len(cs) > 0; k++ {
+			var of []int
+			var v uint64
+			for i, c := range cs {
+				if r.Intn(2) == 0 || (k < 3 && i < 2) {
+					of = append(of, i+1)
+					v |= c.Value
+				}
+			}
+			if k == 0 { // all flags
+				of = of[:0]
+				v = 0
+				for i, c := range cs {
+					of = append(of, i+1)
+					v |= c.Value
+				}
+			}
+			probes = append(probes, probeEnum(t, v, of))
+		}
+	} else {
+		// unnamed values over the full uint64 range, boundaries
+		vals := []uint64{0, 1, 1<<31 - 1, 1 << 31, 1<<32 - 1, 1 << 32, 1<<63 - 1, 1 << 63, 1<<64 - 1}
+		for k := 0; k < nUnnamed; k++ {
+			switch k % 3 {
+			case 0:
+				vals = append(vals, r.Uint64())
+			case 1:
+				vals = append(vals, uint64(r.Intn(70000)))
+			default:
+				vals = append(vals, r.Uint64()>>uint(r.Intn(64)))
+			}
+		}
+		for _, v := range vals {
+			probes = append(probes, probeEnum(t, v, nil))
+		}
+	}
+	// junk texts: none is a name, a list of names or a numeral
+	first := "X"
+	if len(cs) > 0 {
+		first = cs[0].Name
+	}
+	junks := []string{"", " ", "NOT_A_LABEL_zq", first + "_", "_" + first, first + " |", "| " + first, first + " | ",
+		first + "|" + first, "12abc", "0x10", "1.5", "1e3", first + " | NOT_A_LABEL_zq", "--1", "\x00", first + "\n",
+		" " + first, "٣", "1 2"}
+	for k := 0; k < 3; k++ {
+		junks = append(junks, string(rbytes(r, 1+r.Intn(12))))
+	}
+	var junk []M
+	for _, j := range junks {
+		_, uerr, pan := safeUnmarshal(t, []byte(j))
+		junk = append(junk, M{"text": B(j), "uerr": uerr, "panic": pan})
+	}
+	return M{"e": "ENUM", "type": t.Name, "bitmask": t.Bitmask, "consts": consts, "probes": probes, "junk": junk}
 }
